@@ -165,7 +165,9 @@ def main():
     check(same(neighbors(a, True, 1.0), neighbors(a, 1, 1)), "True/1.0 keys")
     check(stats()[1][1] == h0 + 2, "both were hits")
 
-    # an unhashable filter cannot be looked up -- TypeError, nothing counted
+    # an unhashable filter cannot be looked up -- such a query is simply never
+    # cached (since ffc7541; it was a TypeError before): the answer is the one
+    # computed without the cache, and nothing is counted
     class Unhashable:
         __hash__ = None
 
@@ -173,9 +175,23 @@ def main():
             return True
 
     before = stats()[1]
-    check(run(a, filterfunc=Unhashable()) is TypeError, "unhashable filter")
-    check(run(a, [0]) is TypeError, "unhashable direction")
-    check(stats()[1] == before, "failed lookups leave the counters alone")
+    for _ in range(2):
+        check(
+            same(
+                run(a, filterfunc=Unhashable()),
+                truth(a, DIR_SENS_FORWARD, LNK_UNKNOWN_ERROR, Unhashable()),
+            ),
+            "unhashable filter",
+        )
+        check(
+            same(
+                run(a, DIR_SENS_ANY, LNK_UNKNOWN_NEIGHBOR, Unhashable()),
+                truth(a, DIR_SENS_ANY, LNK_UNKNOWN_NEIGHBOR, None),
+            ),
+            "unhashable filter, any direction",
+        )
+        check(run(a, [0]) is ValueError, "unhashable direction")
+    check(stats()[1] == before, "uncacheable lookups leave the counters alone")
     Vertex.NEIGHBOR_CACHING = False
     check(
         same(run(a, DIR_SENS_ANY, 0, Unhashable()), truth(a, 1, 0, None)),
